@@ -12,44 +12,44 @@ package url
 
 // One global invariant per table: established by the package initialiser (obligation kind `global` in url.init), assumed
 // at the entry of every other function; sound because no function has a table object in its modifies set (frame obligations).
-//@ global url.tab.ASCIITabOrNewline: ASCIITabOrNewline != nil && (forall k int :: bsTest(ASCIITabOrNewline, k) == specIsTabOrNewline(k))   [C10]
-//@ global url.tab.ASCIIAlpha: ASCIIAlpha != nil && (forall k int :: bsTest(ASCIIAlpha, k) == specIsAlpha(k))   [C10]
-//@ global url.tab.ASCIIDigit: ASCIIDigit != nil && (forall k int :: bsTest(ASCIIDigit, k) == specIsDigit(k))   [C10]
-//@ global url.tab.ASCIIHexDigit: ASCIIHexDigit != nil && (forall k int :: bsTest(ASCIIHexDigit, k) == specIsHex(k))   [C10]
-//@ global url.tab.ASCIIAlphanumeric: ASCIIAlphanumeric != nil && (forall k int :: bsTest(ASCIIAlphanumeric, k) == specIsAlnum(k))   [C10]
-//@ global url.tab.C0control: C0control != nil && (forall k int :: bsTest(C0control, k) == specIsC0(k))   [C10]
-//@ global url.tab.C0controlOrSpace: C0controlOrSpace != nil && (forall k int :: bsTest(C0controlOrSpace, k) == specIsC0OrSpace(k))   [C10]
-//@ global url.tab.ForbiddenHostCodePoint: ForbiddenHostCodePoint != nil && (forall k int :: bsTest(ForbiddenHostCodePoint, k) == specForbiddenHost(k))   [C10]
-//@ global url.tab.ForbiddenDomainCodePoint: ForbiddenDomainCodePoint != nil && (forall k int :: bsTest(ForbiddenDomainCodePoint, k) == specForbiddenDomain(k))   [C10]
-//@ global url.tab.someURLCodePoints: someURLCodePoints != nil && (forall k int :: bsTest(someURLCodePoints, k) == (specURLPunct(k) && k != 0x21))   [C10]
-//@ global url.set.C0PercentEncodeSet: C0PercentEncodeSet != nil && C0PercentEncodeSet.bs != nil && (forall r int :: 0 <= r ==> setHas(C0PercentEncodeSet, r) == specC0Set(r))   [C10]
-//@ global url.set.C0OrSpacePercentEncodeSet: C0OrSpacePercentEncodeSet != nil && C0OrSpacePercentEncodeSet.bs != nil && (forall r int :: 0 <= r ==> setHas(C0OrSpacePercentEncodeSet, r) == specC0OrSpaceSet(r))   [C10]
-//@ global url.set.FragmentPercentEncodeSet: FragmentPercentEncodeSet != nil && FragmentPercentEncodeSet.bs != nil && (forall r int :: 0 <= r ==> setHas(FragmentPercentEncodeSet, r) == specFragmentSet(r))   [C10]
-//@ global url.set.QueryPercentEncodeSet: QueryPercentEncodeSet != nil && QueryPercentEncodeSet.bs != nil && (forall r int :: 0 <= r ==> setHas(QueryPercentEncodeSet, r) == specQuerySet(r))   [C10]
-//@ global url.set.SpecialQueryPercentEncodeSet: SpecialQueryPercentEncodeSet != nil && SpecialQueryPercentEncodeSet.bs != nil && (forall r int :: 0 <= r ==> setHas(SpecialQueryPercentEncodeSet, r) == specSpecialQuerySet(r))   [C10]
-//@ global url.set.PathPercentEncodeSet: PathPercentEncodeSet != nil && PathPercentEncodeSet.bs != nil && (forall r int :: 0 <= r ==> setHas(PathPercentEncodeSet, r) == specPathSet(r))   [C10]
-//@ global url.set.UserInfoPercentEncodeSet: UserInfoPercentEncodeSet != nil && UserInfoPercentEncodeSet.bs != nil && (forall r int :: 0 <= r ==> setHas(UserInfoPercentEncodeSet, r) == specUserinfoSet(r))   [C10]
-//@ global url.set.HostPercentEncodeSet: HostPercentEncodeSet != nil && HostPercentEncodeSet.bs != nil && (forall r int :: 0 <= r ==> setHas(HostPercentEncodeSet, r) == specHostSet(r))   [C10]
+//@ global url.tab.ASCIITabOrNewline: ASCIITabOrNewline != nil && (forall k int :: bsTest(ASCIITabOrNewline, k) == specIsTabOrNewline(k))   [C10,C04]
+//@ global url.tab.ASCIIAlpha: ASCIIAlpha != nil && (forall k int :: bsTest(ASCIIAlpha, k) == specIsAlpha(k))   [C10,C04]
+//@ global url.tab.ASCIIDigit: ASCIIDigit != nil && (forall k int :: bsTest(ASCIIDigit, k) == specIsDigit(k))   [C10,C04]
+//@ global url.tab.ASCIIHexDigit: ASCIIHexDigit != nil && (forall k int :: bsTest(ASCIIHexDigit, k) == specIsHex(k))   [C10,C04]
+//@ global url.tab.ASCIIAlphanumeric: ASCIIAlphanumeric != nil && (forall k int :: bsTest(ASCIIAlphanumeric, k) == specIsAlnum(k))   [C10,C04]
+//@ global url.tab.C0control: C0control != nil && (forall k int :: bsTest(C0control, k) == specIsC0(k))   [C10,C04]
+//@ global url.tab.C0controlOrSpace: C0controlOrSpace != nil && (forall k int :: bsTest(C0controlOrSpace, k) == specIsC0OrSpace(k))   [C10,C04]
+//@ global url.tab.ForbiddenHostCodePoint: ForbiddenHostCodePoint != nil && (forall k int :: bsTest(ForbiddenHostCodePoint, k) == specForbiddenHost(k))   [C10,C04]
+//@ global url.tab.ForbiddenDomainCodePoint: ForbiddenDomainCodePoint != nil && (forall k int :: bsTest(ForbiddenDomainCodePoint, k) == specForbiddenDomain(k))   [C10,C04]
+//@ global url.tab.someURLCodePoints: someURLCodePoints != nil && (forall k int :: bsTest(someURLCodePoints, k) == (specURLPunct(k) && k != 0x21))   [C10,C04]
+//@ global url.set.C0PercentEncodeSet: C0PercentEncodeSet != nil && C0PercentEncodeSet.bs != nil && (forall r int :: 0 <= r ==> setHas(C0PercentEncodeSet, r) == specC0Set(r))   [C10,C04]
+//@ global url.set.C0OrSpacePercentEncodeSet: C0OrSpacePercentEncodeSet != nil && C0OrSpacePercentEncodeSet.bs != nil && (forall r int :: 0 <= r ==> setHas(C0OrSpacePercentEncodeSet, r) == specC0OrSpaceSet(r))   [C10,C04]
+//@ global url.set.FragmentPercentEncodeSet: FragmentPercentEncodeSet != nil && FragmentPercentEncodeSet.bs != nil && (forall r int :: 0 <= r ==> setHas(FragmentPercentEncodeSet, r) == specFragmentSet(r))   [C10,C04]
+//@ global url.set.QueryPercentEncodeSet: QueryPercentEncodeSet != nil && QueryPercentEncodeSet.bs != nil && (forall r int :: 0 <= r ==> setHas(QueryPercentEncodeSet, r) == specQuerySet(r))   [C10,C04]
+//@ global url.set.SpecialQueryPercentEncodeSet: SpecialQueryPercentEncodeSet != nil && SpecialQueryPercentEncodeSet.bs != nil && (forall r int :: 0 <= r ==> setHas(SpecialQueryPercentEncodeSet, r) == specSpecialQuerySet(r))   [C10,C04]
+//@ global url.set.PathPercentEncodeSet: PathPercentEncodeSet != nil && PathPercentEncodeSet.bs != nil && (forall r int :: 0 <= r ==> setHas(PathPercentEncodeSet, r) == specPathSet(r))   [C10,C04]
+//@ global url.set.UserInfoPercentEncodeSet: UserInfoPercentEncodeSet != nil && UserInfoPercentEncodeSet.bs != nil && (forall r int :: 0 <= r ==> setHas(UserInfoPercentEncodeSet, r) == specUserinfoSet(r))   [C10,C04]
+//@ global url.set.HostPercentEncodeSet: HostPercentEncodeSet != nil && HostPercentEncodeSet.bs != nil && (forall r int :: 0 <= r ==> setHas(HostPercentEncodeSet, r) == specHostSet(r))   [C10,C04]
 
 //@ func NewPercentEncodeSet
-//@   ensures result != nil && fresh(result) && result.bs != nil && fresh(result.bs) && result.allBelow == allBelow   [C10]
-//@   ensures forall k int :: bsTest(result.bs, k) == inSlice(bytes, len(bytes), k)   [C10]
+//@   ensures result != nil && fresh(result) && result.bs != nil && fresh(result.bs) && result.allBelow == allBelow   [C10,C04]
+//@   ensures forall k int :: bsTest(result.bs, k) == inSlice(bytes, len(bytes), k)   [C10,C04]
 //@   loop 1 invariant p != nil && fresh(p) && p.bs != nil && fresh(p.bs) && p.allBelow == allBelow
 //@   loop 1 invariant forall k int :: bsTest(p.bs, k) == inSlice(bytes, $i, k)
 
 //@ func (*PercentEncodeSet).Set
 //@   requires p != nil && p.bs != nil
-//@   ensures result != nil && fresh(result) && result.bs != nil && fresh(result.bs) && result.allBelow == p.allBelow   [C10]
-//@   ensures forall k int :: bsTest(result.bs, k) == (bsTest(p.bs, k) || inSlice(bytes, len(bytes), k))   [C10]
-//@   ensures forall k int :: bsTest(p.bs, k) == old(bsTest(p.bs, k))   [C10 derive-does-not-alter]
+//@   ensures result != nil && fresh(result) && result.bs != nil && fresh(result.bs) && result.allBelow == p.allBelow   [C10,C04]
+//@   ensures forall k int :: bsTest(result.bs, k) == (bsTest(p.bs, k) || inSlice(bytes, len(bytes), k))   [C10,C04]
+//@   ensures forall k int :: bsTest(p.bs, k) == old(bsTest(p.bs, k))   [C10,C04 derive-does-not-alter]
 //@   loop 1 invariant r != nil && fresh(r) && r.bs != nil && fresh(r.bs) && r.allBelow == p.allBelow
 //@   loop 1 invariant forall k int :: bsTest(r.bs, k) == (bsTest(p.bs, k) || inSlice(bytes, $i, k))
 
 //@ func (*PercentEncodeSet).Clear
 //@   requires p != nil && p.bs != nil
-//@   ensures result != nil && fresh(result) && result.bs != nil && fresh(result.bs) && result.allBelow == p.allBelow   [C10]
-//@   ensures forall k int :: bsTest(result.bs, k) == (bsTest(p.bs, k) && !inSlice(bytes, len(bytes), k))   [C10]
-//@   ensures forall k int :: bsTest(p.bs, k) == old(bsTest(p.bs, k))   [C10 derive-does-not-alter]
+//@   ensures result != nil && fresh(result) && result.bs != nil && fresh(result.bs) && result.allBelow == p.allBelow   [C10,C04]
+//@   ensures forall k int :: bsTest(result.bs, k) == (bsTest(p.bs, k) && !inSlice(bytes, len(bytes), k))   [C10,C04]
+//@   ensures forall k int :: bsTest(p.bs, k) == old(bsTest(p.bs, k))   [C10,C04 derive-does-not-alter]
 //@   loop 1 invariant r != nil && fresh(r) && r.bs != nil && fresh(r.bs) && r.allBelow == p.allBelow
 //@   loop 1 invariant forall k int :: bsTest(r.bs, k) == (bsTest(p.bs, k) && !inSlice(bytes, $i, k))
 
